@@ -224,9 +224,23 @@ def gen_label_text(rng):
     return "(" + " ".join(items) + ")"
 
 
+def gen_boundary_string_text(rng):
+    """a string / |symbol| literal whose multi-byte character or \\x...; escape starts just before a power-of-two byte
+    offset (the reader collects literals in a 128-byte buffer that doubles)"""
+    base = rng.choice([128, 128, 256, 256, 512, 1024, 4096])
+    pre = base - rng.randrange(0, 7)
+    esc = rng.choice(["\\x20ac;", "\\x1F600;", "\\x3bb;", "\\x10ffff;", "\u20ac", "\U0001F600", "\\n", "\\x41;"])
+    q = rng.choice(['"', '"', "|"])
+    body = "a" * pre + esc * rng.choice([1, 1, 2, 3]) + "b" * rng.randrange(0, 4)
+    return q + body + q
+
+
 def gen_text(rng):
-    if rng.random() < 0.2:
+    r0 = rng.random()
+    if r0 < 0.2:
         return gen_label_text(rng)
+    if r0 < 0.35:
+        return gen_boundary_string_text(rng)
     n = rng.choice([1, 2, 3, 5, 8, 12, 20, 40])
     s = "".join(rng.choice(TEXT_ATOMS) for _ in range(n))
     if rng.random() < 0.3:
@@ -245,6 +259,9 @@ def gen_text(rng):
     return s
 
 
+DEEP_CONSUMERS = ["equal?", "eqv?", "member", "assoc", "memv", "assv", "write", "display", "write-shared", "write-simple", "length", "list-copy",
+                  "append", "reverse", "list->vector", "vector->list", "apply", "map", "for-each", "vector-map", "list?", "length*", "equal?/bounded",
+                  "list->string", "vector-fill!", "hash", "string-append", "max", "+", "vector-for-each", "list-tail", "cons-source", "strip-syntactic-closures"]
 DEEP = ["(deep-car 1000000)", "(deep-car 150000)", "(deep-vec 400000)", "(deep-list 1000000)", "(long-list 1000000)"]
 
 
@@ -253,12 +270,13 @@ def gen_case(rng, table, names, known=(), excl=[0]):
     if r < 0.04:
         # one call whose arguments are huge / deeply nested data (nested through a non-last slot, through vectors,
         # through the last slot, or simply long); decided on the plain build with the default C stack
-        name = rng.choice(names)
+        consumers = [n for n in DEEP_CONSUMERS if n in table]
+        name = rng.choice(consumers) if (consumers and rng.random() < 0.6) else rng.choice(names)
         while name in NEVER_WITH_ARGS or name in EXITS:
             name = rng.choice(names)
         a = max(1, table[name]["arity"])
         d = rng.choice(DEEP)
-        args = [["list", d if (i == 0 or rng.random() < 0.6) else rng.choice(DEEP)] for i in range(min(a, 3))]
+        args = [["list", d if (i == 0 or rng.random() < 0.8) else rng.choice(DEEP)] for i in range(min(a, 3))]
         if table[name]["arity"] >= 2 and rng.random() < 0.3:
             args[rng.randrange(len(args))] = ["fixnum", rng.choice(["0", "1", "100000"])]
         return {"kind": "calls", "deep": True, "steps": [{"proc": name, "args": args}]}
